@@ -5,7 +5,7 @@
 //! high-level overview.
 
 use anda_db_utils::UniqueVec;
-use dashmap::DashMap;
+use dashmap::{DashMap, DashSet};
 use parking_lot::RwLock;
 use rustc_hash::{FxBuildHasher, FxHashMap, FxHashSet};
 use serde::{Deserialize, Serialize};
@@ -137,6 +137,13 @@ pub struct BM25Index<T: Tokenizer + Clone> {
 
     /// Last saved version of the index
     last_saved_version: AtomicU64,
+
+    /// Ids whose last `remove` was given text that did not account for their
+    /// recorded length: entries of their previous text may still sit in
+    /// posting lists. Scoring skips those while the id is absent; `insert`
+    /// sweeps them before the id becomes visible again. In-memory only:
+    /// loading prunes the entries of absent documents.
+    stale_ids: DashSet<u64>,
 
     /// Held *shared* by every synchronous mutation and *exclusively* by
     /// [`BM25Index::compact_buckets`], which rebuilds the whole bucket map
@@ -412,6 +419,7 @@ where
             total_tokens: AtomicU64::new(0),
             search_count: AtomicU64::new(0),
             last_saved_version: AtomicU64::new(0),
+            stale_ids: DashSet::new(),
             mutation_gate: RwLock::new(()),
         }
     }
@@ -477,6 +485,7 @@ where
             // `stats.avg_doc_tokens` is not carried over — it would disagree
             // with an empty `doc_tokens` until then.
             total_tokens: AtomicU64::new(0),
+            stale_ids: DashSet::new(),
             mutation_gate: RwLock::new(()),
         })
     }
@@ -785,6 +794,13 @@ where
             });
         }
 
+        // Entries left behind by a `remove` of this id with non-original text
+        // must be gone before the id is visible to scoring again, or they
+        // would match for terms the new text does not contain.
+        if !self.doc_tokens.contains_key(&id) && self.stale_ids.remove(&id).is_some() {
+            self.purge_ids_locked(&BTreeSet::from([id]), now_ms);
+        }
+
         // Phase 1: Update the postings collection
         let bucket_id = self.max_bucket_id.load(Ordering::Acquire);
         let tokens: usize = token_freqs.values().sum();
@@ -931,8 +947,8 @@ where
     /// [`insert`](Self::insert); it is re-tokenized to identify which posting
     /// lists should drop this document. If the text does not match, postings
     /// may retain stale entries — searches still skip them because scoring
-    /// filters by `doc_tokens` membership, and the stale entries are pruned
-    /// the next time the index is loaded via
+    /// filters by `doc_tokens` membership, a re-insert of the same id sweeps
+    /// them first, and they are pruned the next time the index is loaded via
     /// [`load_buckets`](Self::load_buckets). For idempotent recovery, cleanup
     /// by `text` still runs when `id` is already absent from `doc_tokens`; in
     /// that case the method returns `false` and deletion statistics are not
@@ -977,6 +993,9 @@ where
         let mut buckets_to_update: FxHashMap<u32, FxHashMap<String, usize>> = FxHashMap::default();
         // Remove from inverted index
         let mut maybe_empty_tokens: Vec<String> = Vec::new();
+        // Sum of the term frequencies dropped below; compared with the
+        // document's recorded length to detect non-original `text`.
+        let mut dropped_tokens: usize = 0;
         for (token, _) in token_freqs {
             if let Some(mut posting) = self.postings.get_mut(&token) {
                 // Remove every entry for this document. Duplicates can exist
@@ -989,6 +1008,7 @@ where
                 if removed_vals.is_empty() {
                     continue;
                 }
+                dropped_tokens += removed_vals.iter().map(|val| val.1).sum::<usize>();
 
                 let size_decrease = if posting.1.is_empty() {
                     maybe_empty_tokens.push(token.clone());
@@ -1071,6 +1091,14 @@ where
             });
         }
 
+        // What was dropped for the supplied text must add up to the length
+        // recorded for the document. If it does not, `text` was not the
+        // original one and entries of this id remain in other posting lists;
+        // remember the id so that a re-insert sweeps them first.
+        if removed_tokens.is_some_and(|recorded| recorded != dropped_tokens) {
+            self.stale_ids.insert(id);
+        }
+
         was_present
     }
 
@@ -1136,7 +1164,12 @@ where
 
         // Shared with other mutations, exclusive against `compact_buckets`.
         let _mutation_guard = self.mutation_gate.read();
+        self.purge_ids_locked(ids, now_ms)
+    }
 
+    /// [`purge_ids`](Self::purge_ids) for a caller that already holds the
+    /// shared side of the mutation gate.
+    fn purge_ids_locked(&self, ids: &BTreeSet<u64>, now_ms: u64) -> usize {
         // Phase 1: drop the document lengths. As in `insert`/`remove`, the
         // token counter follows the `doc_tokens` entries it accounts for.
         let mut removed_docs = 0usize;
